@@ -289,6 +289,8 @@ class StmtMixin:
             elem = elem.with_(extra=None)
         else:
             elem = Val(deps=it.deps, tags=it.tags & {"random"})
+        if self.is_label_collection(it):
+            elem = elem.add_tags("label")
         elem = elem.add_tags(tag).with_(extra=("elemof", it, iter_node))
         if isinstance(target, (ast.Tuple, ast.List)):
             for i, e in enumerate(target.elts):
